@@ -191,12 +191,13 @@ pub fn examples(th: bool) -> Vec<Example> {
     }
     // ---------------------------------------------------------------- lcs
     {
-        let maxlen = 3usize;
+        // maintenance knob (never set by a registered command): VERIF_LCS_SCOPE="<max length>,<alphabet size>"
+        let (maxlen, alpha): (usize, u32) = std::env::var("VERIF_LCS_SCOPE").ok().and_then(|s| { let mut it = s.split(','); Some((it.next()?.trim().parse().ok()?, it.next()?.trim().parse().ok()?)) }).unwrap_or((3, 2));
         let mut strs: Vec<String> = vec![];
-        for l in 1..=maxlen { for m in 0..(1u32 << l) { strs.push((0..l).map(|i| if m & (1 << i) != 0 { 'b' } else { 'a' }).collect()); } }
+        for l in 1..=maxlen { for m in 0..alpha.pow(l as u32) { let mut m = m; strs.push((0..l).map(|_| { let c = (b'a' + (m % alpha) as u8) as char; m /= alpha; c }).collect()); } }
         let ns = strs.len() as u64;
-        let count = ns * ns + if th { ns * ns * ns } else { 0 };
-        ex.push(Example { name: "lcs", scope: format!("all ordered tuples of {} strings of length 1..=3 over {{a,b}}", if th { "2 and 3" } else { "2" }), count, file_flag: None, tsptw_output: false, extra: vec![],
+        let count = ns * ns + if th && maxlen <= 3 { ns * ns * ns } else { 0 };
+        ex.push(Example { name: "lcs", scope: format!("all ordered tuples of {} strings of length 1..={} over an alphabet of {} letters", if th { "2 and 3" } else { "2" }, maxlen, alpha), count, file_flag: None, tsptw_output: false, extra: vec![],
             arg_sets: argsets(&w4, tt, "-w", "-t"),
             gen: Box::new(move |mut idx| {
                 let k = if idx < ns * ns { 2 } else { idx -= ns * ns; 3 };
@@ -213,6 +214,37 @@ pub fn examples(th: bool) -> Vec<Example> {
                 let text = format!("{} {}\n{}", k, chars.len(), combo.iter().map(|s| format!("{} {}\n", s.len(), s)).collect::<String>());
                 Case { text, expect: Expect::Value(best as f64), descr: format!("strings {:?}", combo) }
             }) });
+    }
+    // ---------------------------------------------------------------- lcs, longer strings, one worker thread (D16)
+    {
+        // D16 = the known finding D2 (pooled diagram with long arcs: a sub-problem lands in its own cut-set) seen through the lcs
+        // example, whose solver is the parallel caching pooled one: the re-enqueued sub-problem was marked explored when first popped
+        // and is dropped => a suboptimal length printed as proved with -w 1.  It takes strings of length 6.  These runs use ONE
+        // worker thread: with several workers whether the drop happens depends on the operating system's schedule, and a known
+        // finding restricted to listed inputs must be deterministic.
+        let maxlen = 6usize;
+        let mut strs: Vec<String> = vec![];
+        for l in 1..=maxlen { for m in 0..(1u32 << l) { strs.push((0..l).map(|i| if m & (1 << i) != 0 { 'b' } else { 'a' }).collect()); } }
+        let ns = strs.len() as u64;
+        let count = if th { ns * ns } else { 0 };
+        let lcs_case = |combo: Vec<String>| -> Case {
+            let is_sub = |x: &str, s: &str| { let mut it = s.chars(); x.chars().all(|c| it.any(|d| d == c)) };
+            let first = &combo[0];
+            let mut best = 0;
+            for m in 0..(1u32 << first.len()) {
+                let x: String = first.chars().enumerate().filter(|(i, _)| m & (1 << i) != 0).map(|(_, c)| c).collect();
+                if combo.iter().all(|s| is_sub(&x, s)) { best = best.max(x.len()); }
+            }
+            let mut chars: Vec<char> = combo.iter().flat_map(|s| s.chars()).collect();
+            chars.sort(); chars.dedup();
+            let text = format!("{} {}\n{}", combo.len(), chars.len(), combo.iter().map(|s| format!("{} {}\n", s.len(), s)).collect::<String>());
+            Case { text, expect: Expect::Value(best as f64), descr: format!("strings {:?}", combo) }
+        };
+        let extra = vec![lcs_case(vec!["abaaaa".to_string(), "baaaba".to_string()]), lcs_case(vec!["caabab".to_string(), "aacbab".to_string()])];
+        let strs2 = strs.clone();
+        ex.push(Example { name: "lcs@long", scope: format!("one worker thread: {} + 2 hand-written pairs of length 6 (D16)", if th { "all ordered pairs of strings of length 1..=6 over {a,b}" } else { "no generated instance in the quick tier" }), count, file_flag: None, tsptw_output: false, extra,
+            arg_sets: argsets(&w4, &[Some(1)], "-w", "-t"),
+            gen: Box::new(move |mut idx| { let combo: Vec<String> = (0..2).map(|_| strs2[digit(&mut idx, ns) as usize].clone()).collect(); lcs_case(combo) }) });
     }
     // ---------------------------------------------------------------- golomb
     {
@@ -625,13 +657,13 @@ pub fn check(tier: &str) -> i32 {
     let mut per_example = vec![];
     let (mut runs, mut cases, mut complete) = (0u64, 0u64, true);
     let mut samples = vec![];
-    let n_ex = exs.iter().filter(|e| only.as_ref().map_or(true, |o| o == e.name)).count().max(1);
-    for (ei, ex) in exs.iter().filter(|e| only.as_ref().map_or(true, |o| o == e.name)).enumerate() {
+    let n_ex = exs.iter().filter(|e| only.as_ref().map_or(true, |o| o == e.name.split('@').next().unwrap())).count().max(1);
+    for (ei, ex) in exs.iter().filter(|e| only.as_ref().map_or(true, |o| o == e.name.split('@').next().unwrap())).enumerate() {
         // every example gets an equal share of what is left of the budget
         let left = total_budget - t0.elapsed().as_secs_f64();
         let share = (left / (n_ex - ei) as f64).max(1.0);
         let deadline = Instant::now() + Duration::from_secs_f64(share);
-        let bin = format!("{}/{}", bindir, ex.name);
+        let bin = format!("{}/{}", bindir, ex.name.split('@').next().unwrap());
         let te = Instant::now();
         let res = par_run::<Local, _>(ex.count + ex.extra.len() as u64, 8, Some(deadline), rep.seed, |i, l| {
             let case = if i < ex.count { (ex.gen)(i) } else { ex.extra[(i - ex.count) as usize].clone() };
